@@ -3,18 +3,13 @@ import OjgVerif.JPText.Expr
 
 `Expr.Append` (jp/expr.go) with the `Append` method of every fragment, `jp.AppendString`
 (jp/string.go), `Script.Append`/`appendOp`/`appendValue` (jp/script.go) and `Equation.Append`
-(jp/equation.go), one Lean branch per Go branch, *with the deviations the pinned tree has*
-(they are the subject of C14; see `Props/C14.lean` and `known_findings.json`):
+(jp/equation.go), one Lean branch per Go branch, for the tree with the C14 repairs e6c1ad4 (Equation
+parentheses per operand), d27ad83 (right operand of equal precedence), c107b3b (`\\xHH` for undecodable
+bytes), bc70af1 (descent text), 4af356a (union members escaped, Nth by `AppendInt`), b3b14ce (`.0` for
+integral floats).
 
-* `Descent.Append` writes one `.` (or `[..]`), whatever follows;
-* `Union.Append` writes string members without escaping;
-* `Nth.Append` negates with wrap-around;
-* `Equation.Append` decides the right operand's parentheses from the LEFT operand;
-* `Script.appendValue` parenthesises an operand only when its precedence number is strictly larger;
-* `AppendString` writes an undecodable byte as `\\ufffd`; with the `/` delimiter (regex constants) it
-  drops the backslash of an escape letter and does not escape `/`;
-* a `float64` constant is the bare `FormatFloat` text (no `.0` for an integral value).
-Each place is marked `DEVIATION (C14-…)` with the id of the known finding.
+Deviation still carried (marked `DEVIATION (C14-…)`): with the `/` delimiter (regex constants)
+`AppendString` drops the backslash of an escape letter and does not escape `/` (C14-regex-text).
 -/
 namespace OjgVerif.JPText
 open OjgVerif
@@ -35,8 +30,10 @@ def appendStrBody (delim : UInt8) : Nat → Bytes → Bytes
       else if (decodeRune (b :: r)).1 = 0x2029 then
         92 :: 117 :: 50 :: 48 :: 50 :: 57 :: appendStrBody delim f (r.drop ((decodeRune (b :: r)).2 - 1))
       else if (decodeRune (b :: r)).1 = runeError then
-        -- DEVIATION (C14-utf8): also for an undecodable byte (width 1): lossy
-        92 :: 117 :: 102 :: 102 :: 102 :: 100 :: appendStrBody delim f (r.drop ((decodeRune (b :: r)).2 - 1))
+        if (decodeRune (b :: r)).2 = 1 then                                  -- not UTF-8: \xHH (since c107b3b)
+          92 :: 120 :: hexDigit (b >>> 4 &&& 15) :: hexDigit (b &&& 15) :: appendStrBody delim f r
+        else
+          92 :: 117 :: 102 :: 102 :: 102 :: 100 :: appendStrBody delim f (r.drop ((decodeRune (b :: r)).2 - 1))
       else
         b :: (r.take ((decodeRune (b :: r)).2 - 1) ++ appendStrBody delim f (r.drop ((decodeRune (b :: r)).2 - 1)))
     else if delim ≠ 47 then 92 :: jCls b :: appendStrBody delim f r          -- escape letter after a backslash
@@ -53,20 +50,8 @@ def childPrint (br first : Bool) (k : Bytes) : Bytes :=
   if br || !tokenOk k then 91 :: (appendString k 39 ++ [93])
   else if first then k else 46 :: k
 
-/-- the digit loop of `Nth.Append`: `num[cnt] = byte(i%10) + '0'; i /= 10` until `i == 0`,
-most significant digit first -/
-def nthDigits : Nat → Int → Bytes → Bytes
-  | 0, _, acc => acc
-  | f+1, i, acc =>
-    if i = 0 then acc
-    else nthDigits f (Int.tdiv i 10) (UInt8.ofNat ((Int.tmod i 10 + 48) % 256).toNat :: acc)
-
-/-- `Nth.Append`. DEVIATION (C14-nth-minint): `i = -i` wraps for the least integer, the digit loop then
-sees a negative number -/
-def nthPrint (i : Int) : Bytes :=
-  91 :: ((if i < 0 then [45] else []) ++
-    ((if (if i < 0 then wrap64 (-i) else i) = 0 then [48]
-      else nthDigits 20 (if i < 0 then wrap64 (-i) else i) []) ++ [93]))
+/-- `Nth.Append`: `strconv.AppendInt` between brackets (since 4af356a) -/
+def nthPrint (i : Int) : Bytes := 91 :: (fmtInt i ++ [93])
 
 def sliceStart (n : Int) : Bytes := if n ≠ 0 then fmtInt n else []
 def sliceEnd (n : Int) : Bytes := if n ≠ maxEnd then fmtInt n else []
@@ -79,7 +64,7 @@ def slicePrint : List Int → Bytes
   | a :: b :: c :: _ => 91 :: (sliceStart a ++ 58 :: (sliceEnd b ++ 58 :: (fmtInt c ++ [93])))
 
 def umemPrint : UMem → Bytes
-  | .key s => 39 :: (s ++ [39])         -- DEVIATION (C14-union-escape): not escaped
+  | .key s => appendString s 39          -- escaped like a child key (since 4af356a)
   | .idx i => fmtInt i
 
 def umemsPrint : List UMem → Bytes
@@ -103,8 +88,13 @@ deriving Inhabited
 def SItem.app (prec : Nat) : Option SItem → Bytes
   | none => [110, 117, 108, 108]
   | some (.txt b) => b
-  -- DEVIATION (C14-equal-prec): strictly larger only, also for a right operand
   | some (.pb p b) => if prec < p then 40 :: (b ++ [41]) else b
+
+/-- the right operand of an infix operator: a `precBuf` of EQUAL precedence keeps its parentheses too
+(since d27ad83: equal precedence is read left-associated) -/
+def SItem.appRight (prec : Nat) : Option SItem → Bytes
+  | some (.pb p b) => if p = prec then 40 :: (b ++ [41]) else SItem.app prec (some (.pb p b))
+  | x => SItem.app prec x
 
 /-- `Script.appendOp` -/
 def appendOp (o : Op) (left right : Option SItem) : Bytes :=
@@ -117,13 +107,17 @@ def appendOp (o : Op) (left right : Option SItem) : Bytes :=
   else if o.code = Gen.Jp.userOpCode then
     o.name ++ 40 :: (SItem.app o.prec left ++
       ((if 1 < o.cnt then 44 :: 32 :: SItem.app o.prec right else []) ++ [41]))
-  else SItem.app o.prec left ++ 32 :: (o.name ++ 32 :: SItem.app o.prec right)
+  else SItem.app o.prec left ++ 32 :: (o.name ++ 32 :: SItem.appRight o.prec right)
 
 /-- one step of the right-to-left scan of `Script.Append` over an operator: the operator and its
 `cnt` operands are replaced by one `precBuf` (for a template in which every operator has its
 operands this is what the in-place `copy` leaves in the live part of the stack) -/
 def stepOp (o : Op) (tail : List SItem) : List SItem :=
   .pb o.prec (appendOp o tail[0]? tail[1]?) :: tail.drop o.cnt
+
+/-- `appendFloat` (since b3b14ce): the `FormatFloat` text, with `.0` when it has no `.`, `e`, `N`, `I` -/
+def floatPrint (t : Bytes) : Bytes :=
+  if t.any (fun b => b = 46 || b = 101 || b = 78 || b = 73) then t else t ++ [46, 48]
 
 def bNull : Bytes := [110, 117, 108, 108]
 def bNothing : Bytes := [78, 111, 116, 104, 105, 110, 103]
@@ -138,8 +132,7 @@ mutual
     | .child k => childPrint br first k
     | .nth i => nthPrint i
     | .wild h => if br || h then [91, 42, 93] else if first then [42] else [46, 42]
-    -- DEVIATION (C14-descent): one dot whatever follows; `[..]` is not accepted by the parser
-    | .descent => if br then [91, 46, 46, 93] else [46]
+    | .descent => if br then [91, 46, 46, 93] else [46]      -- the second dot is written by `Expr.Append`
     | .union ms => unionPrint ms
     | .slice ns => slicePrint ns
     | .filter t =>
@@ -147,20 +140,22 @@ mutual
         | .txt b :: _ => b
         | .pb _ b :: _ => b
         | [] => []) ++ [41, 93])
-  /-- the fragment loop of `Expr.Append` -/
-  def Frag.printL (br first : Bool) : List Frag → Bytes
-    | [] => []
-    | f :: r => f.print br first ++ Frag.printL br false r
+  /-- the fragment loop of `Expr.Append` (since bc70af1): after a Descent in dot form (`aD`) the second dot
+  is written here and the next fragment is appended like a first one; a last Descent gets it at the end -/
+  def Frag.printL (br first aD : Bool) : List Frag → Bytes
+    | [] => if aD then [46] else []
+    | f :: r =>
+      (if aD then [46] else []) ++ (f.print br (first || aD) ++ Frag.printL br false (f.isDescent && !br) r)
   /-- `appendValue` of jp/script.go and jp/equation.go for a constant -/
   def Val.print : Val → Bytes
     | .null => bNull
     | .nothing => bNothing
     | .bool b => if b then bTrue else bFalse
     | .int i => fmtInt i
-    | .flt t => t                        -- DEVIATION (C14-float-text): `2` for 2.0; NaN/Inf have no form
+    | .flt t => floatPrint t
     | .str s => appendString s 39
     | .list vs => 91 :: (Val.printL vs ++ [93])
-    | .expr x => Frag.printL false true x ++ (if lastIsDescent x then [46] else [])
+    | .expr x => Frag.printL false true false x
     | .regex src => appendString src 47
   def Val.printL : List Val → Bytes
     | [] => []
@@ -174,8 +169,7 @@ mutual
 end
 
 /-- `Expr.Append(buf, bracket)` / `String()` / `BracketString()` -/
-def exprPrint (br : Bool) (x : Expr) : Bytes :=
-  Frag.printL br true x ++ (if lastIsDescent x then [46] else [])
+def exprPrint (br : Bool) (x : Expr) : Bytes := Frag.printL br true false x
 
 /-- `Script.Append` -/
 def scriptPrint (t : List Item) : Bytes :=
@@ -189,15 +183,30 @@ def filterPrint (t : List Item) : Bytes := 91 :: 63 :: (scriptPrint t ++ [93])
 
 /-! ## `Equation.Append` -/
 
-/-- `e.left.o != nil && e.left.o.prec >= e.o.prec` -/
-def leftParens (o : Op) (l : Eqn) : Bool :=
-  match l.op? with
-  | none => false
-  | some lo => decide (lo.prec ≥ o.prec)
-
 def noParensCode (o : Op) : Bool :=
   isCode o Gen.JpOps.op_not || isCode o Gen.JpOps.op_length || isCode o Gen.JpOps.op_count ||
   isCode o Gen.JpOps.op_match || isCode o Gen.JpOps.op_search || isCode o Gen.JpOps.op_group
+
+/-- `Equation.infix`: written as left, operator, right -/
+def Eqn.infixPrec? : Eqn → Option Nat
+  | .val _ => none
+  | .un o _ => if noParensCode o || isCode o Gen.JpOps.op_get then none else some o.prec
+  | .bin o _ _ => if noParensCode o || isCode o Gen.JpOps.op_get then none else some o.prec
+
+def Eqn.isInfix (e : Eqn) : Bool := e.infixPrec?.isSome
+
+/-- parentheses of the left operand: infix and binding less tightly -/
+def leftParens (o : Op) (l : Eqn) : Bool :=
+  match l.infixPrec? with
+  | none => false
+  | some p => decide (o.prec < p)
+
+/-- parentheses of the right operand: infix and not binding more tightly (since e6c1ad4 from the right
+operand itself) -/
+def rightParens (o : Op) (r : Eqn) : Bool :=
+  match r.infixPrec? with
+  | none => false
+  | some p => decide (o.prec ≤ p)
 
 def wrapParens (p : Bool) (b : Bytes) : Bytes := if p then 40 :: (b ++ [41]) else b
 
@@ -206,16 +215,16 @@ def wrapParens (p : Bool) (b : Bytes) : Bytes := if p then 40 :: (b ++ [41]) els
 def Eqn.print : Eqn → Bool → Option Bytes
   | .val v, p => some (wrapParens p v.print)
   | .un o l, p =>
-    (if isCode o Gen.JpOps.op_not then (l.print (leftParens o l)).map (33 :: ·)
+    (if isCode o Gen.JpOps.op_not then (l.print l.isInfix).map (33 :: ·)
      else if isCode o Gen.JpOps.op_get then some l.resultOf.print
      else if isCode o Gen.JpOps.op_length || isCode o Gen.JpOps.op_count then
        some (o.name ++ 40 :: (l.resultOf.print ++ [41]))
      else if isCode o Gen.JpOps.op_match || isCode o Gen.JpOps.op_search then none
-     else if isCode o Gen.JpOps.op_group then l.print (leftParens o l)
+     else if isCode o Gen.JpOps.op_group then l.print l.isInfix
      else (l.print (leftParens o l)).map (· ++ 32 :: (o.name ++ [32]))).map
       (wrapParens (p && !noParensCode o))
   | .bin o l r, p =>
-    (if isCode o Gen.JpOps.op_not then (l.print (leftParens o l)).map (33 :: ·)
+    (if isCode o Gen.JpOps.op_not then (l.print l.isInfix).map (33 :: ·)
      else if isCode o Gen.JpOps.op_get then some l.resultOf.print
      else if isCode o Gen.JpOps.op_length || isCode o Gen.JpOps.op_count then
        some (o.name ++ 40 :: (l.resultOf.print ++ [41]))
@@ -223,10 +232,9 @@ def Eqn.print : Eqn → Bool → Option Bytes
        match l.print false, r.print false with
        | some a, some b => some (o.name ++ 40 :: (a ++ 44 :: 32 :: (b ++ [41])))
        | _, _ => none
-     else if isCode o Gen.JpOps.op_group then l.print (leftParens o l)
+     else if isCode o Gen.JpOps.op_group then l.print l.isInfix
      else
-       -- DEVIATION (C14-equation-parens): the right operand's flag is computed from the LEFT operand
-       match l.print (leftParens o l), r.print (leftParens o l) with
+       match l.print (leftParens o l), r.print (rightParens o r) with
        | some a, some b => some (a ++ 32 :: (o.name ++ 32 :: b))
        | _, _ => none).map (wrapParens (p && !noParensCode o))
 
